@@ -233,6 +233,24 @@ def liftOpt {α : Type} (o : Option α) (e : Err) : NM α :=
 def okOrNone {α : Type} (x : NM α) : NM (Option α) :=
   tryCatch (x >>= fun a => pure (some a)) (fun e => if e == Err.outOfFuel then throw e else pure none)
 
+/-- `ComponentKind`: the symbol space a name is looked up in -/
+inductive Kind where
+  | type | element | any
+deriving Repr, DecidableEq, Inhabited
+
+def Kind.matchesType : Kind → RType → Bool
+  | .type, .complex _ => true
+  | .type, .simple _ => true
+  | .type, _ => false
+  | .element, .element _ => true
+  | .element, _ => false
+  | .any, _ => true
+
+def Kind.matchesTag : Kind → String → Bool
+  | .type, t => t == "complexType" || t == "simpleType"
+  | .element, t => t == "element"
+  | .any, _ => true
+
 /-! ### nodes (node.rs, structures/*, field.rs) — one mutual, fuel-driven block -/
 
 mutual
@@ -253,20 +271,28 @@ partial def tryFromNode (node : XNode) (ctx : Ctx) : Nat → NM RNode
     pure { rtype := rt, inNs := d.current }
 
 /-- `RustDocument::find_node_by_xml_name` with its tree-search fallback -/
-partial def findNodeByXmlName (ctx : Ctx) (xmlName : String) (ns : Option Ns) : Nat → NM (Option RNode)
+partial def findNodeByXmlName (ctx : Ctx) (xmlName : String) (ns : Option Ns) (kind : Kind) : Nat → NM (Option RNode)
   | 0 => throw .outOfFuel
   | fuel + 1 => do
     let d ← getDoc
-    match d.nodes.find? (fun n => n.rtype.xmlName == some xmlName && n.inNs == ns) with
+    match (d.nodes ++ d.knownNodes).find? (fun n => n.rtype.xmlName == some xmlName && n.inNs == ns && kind.matchesType n.rtype) with
     | some n => pure (some n)
     | none =>
-      -- try_to_find_node_by_xml_name_in_xml_doc: first element (document order) whose `name`
-      -- attribute, prefix stripped, equals the wanted name; namespace ignored
+      -- try_to_find_node_by_xml_name_in_xml_doc: the first global component (child of a `schema`) in
+      -- document order of the wanted kind, in a schema of the wanted namespace, whose `name`
+      -- attribute, prefix stripped, equals the wanted name
       let d ← getDoc
-      let cand := ctx.allElems.find? (fun (n, _) =>
-        match n.attr? "name" with
-        | some nm => (resolveType d nm).1 == xmlName
-        | none => false)
+      let cand := ctx.allElems.find? (fun (n, anc) =>
+        match anc.head? with
+        | none => false
+        | some schema =>
+          schema.tag == "schema" && kind.matchesTag n.tag &&
+          (match ns, schema.attr? "targetNamespace" with
+           | some w, some t => w.uri == t
+           | _, _ => true) &&
+          (match n.attr? "name" with
+           | some nm => (resolveType d nm).1 == xmlName
+           | none => false))
       match cand with
       | none => pure none
       | some (n, anc) => okOrNone (tryFromNode n { ctx with ancestors := anc } fuel)
@@ -292,7 +318,8 @@ partial def fieldFromNode (node : XNode) (ctx : Ctx) : Nat → NM Field
                  isVec := occ.isVec, tns := none, isAttribute := occ.isAttribute, isChoice := occ.isChoice,
                  isAny := false }
       let ns := nsRef.bind (lookupNs d)
-      let refNode ← findNodeByXmlName ctx xmlName ns fuel
+      let kind := if node.tag == "element" then Kind.element else Kind.any
+      let refNode ← findNodeByXmlName ctx xmlName ns kind fuel
       let refNode ← liftOpt refNode .nodeNotFound
       let xmlName' ← liftOpt refNode.rtype.xmlName .invalidReference
       return { xmlName := xmlName', rustName := rustName,
@@ -337,7 +364,7 @@ partial def importExtension (node : XNode) (ctx : Ctx) : Nat → NM (List Field)
       let baseName ← liftOpt (base.attr? "base") .attributeMissing
       let d ← getDoc
       let (xmlName, ns) := resolveType d baseName
-      let baseNode ← findNodeByXmlName ctx xmlName ns fuel
+      let baseNode ← findNodeByXmlName ctx xmlName ns .type fuel
       let baseNode ← liftOpt baseNode .nodeNotFound
       let mut fields : List Field := match baseNode.rtype with
         | .complex p => p.fields
@@ -455,7 +482,7 @@ def messageFromNode (node : XNode) (ctx : Ctx) (fuel : Nat) : NM Msg := do
     let element ← liftOpt (p.attr? "element") .attributeMissing
     let d ← getDoc
     let (xmlName, ns) := resolveType d element
-    let rn ← findNodeByXmlName ctx xmlName ns fuel
+    let rn ← findNodeByXmlName ctx xmlName ns .element fuel
     let rn ← liftOpt rn .nodeNotFound
     parts := bmInsert partName (rn, ns) parts
   pure { xmlName := name, parts := parts }
@@ -576,7 +603,8 @@ def nodeFuel : Nat := 100000
 mutual
 
 /-- `read_xml_internal` -/
-partial def readXmlInternal (files : List XFile) (fileName : String) (known : List Ns) : Nat → FM Doc
+partial def readXmlInternal (files : List XFile) (fileName : String) (known : List Ns) (knownNodes : List RNode) :
+    Nat → FM Doc
   | 0 => throw .outOfFuel
   | fuel + 1 => do
     let some file := files.find? (fun f => f.name == fileName) | throw .importNotFound
@@ -584,7 +612,7 @@ partial def readXmlInternal (files : List XFile) (fileName : String) (known : Li
     if st.processed.contains fileName then return {}
     let some tops := file.tops | throw .message
     -- init_with_known_namespaces: collect the root element's namespaces
-    let d0 : Doc := { namespaces := known }
+    let d0 : Doc := { namespaces := known, knownNodes := knownNodes }
     let d0 := match tops.find? (·.isElem) with
       | some root => (runNM (collectNamespacesOnNode root) d0).2
       | none => d0
@@ -660,7 +688,7 @@ partial def readXsd (files : List XFile) (file : XFile) (allElems : List (XNode 
         let some _ := files.find? (fun f => f.name == loc) | throw Err.importNotFound
         let st ← get
         if st.processed.contains loc then continue
-        let imported ← readXmlInternal files loc d.namespaces fuel
+        let imported ← readXmlInternal files loc d.namespaces (d.knownNodes ++ d.nodes) fuel
         d := d.extend imported
         continue
       let (r, d') := runNM (tryFromNode child ctx nodeFuel) d
@@ -674,6 +702,6 @@ end
 
 /-- `XmlReader::read_xml`: the processed flags are cleared first, then the start file is read -/
 def readXml (files : List XFile) (start : String) (fuel : Nat := 10000) : Except Err Doc :=
-  ((readXmlInternal files start [] fuel).run {}).map (·.1)
+  ((readXmlInternal files start [] [] fuel).run {}).map (·.1)
 
 end ZeepVerif.Model
